@@ -188,7 +188,9 @@ def lineage_statements(r, n):
     for i in range(n):
         d = r.choice(["MYSQL", "HIVE"])
         a, b, c = r.choice(TABLES), r.choice(TABLES), r.choice(TABLES)
-        k = r.below(16)
+        k = r.below(22)
+        al, al2 = r.choice(["x", "t1", "orders", "t2", "q"]), r.choice(["u", "act_u", "t2"])      # derived-table aliases, sometimes a catalogue table's name
+        if al2 == al: al2 = "u9"
         if k == 0: s = "SELECT a, b FROM %s" % a
         elif k == 1: s = "SELECT x.a, x.c FROM %s x" % a
         elif k == 2: s = "SELECT x.a, y.b FROM %s x JOIN %s y ON x.a = y.a" % (a, b)
@@ -204,6 +206,14 @@ def lineage_statements(r, n):
         elif k == 12: s = "SELECT x.a FROM %s x; SELECT y.b FROM %s y; SELECT x.a FROM %s x" % (a, b, a)
         elif k == 13: s = "INSERT OVERWRITE TABLE %s SELECT a, b, c FROM %s" % (a, b); d = "HIVE"
         elif k == 14: s = "SELECT x.a, COUNT(x.b) AS n FROM %s x GROUP BY x.a" % a
+        # sibling derived tables where a LATER sibling has a WITH clause of its own; WITH inside WITH bodies and inside IN-sub-queries
+        elif k == 15: s = "SELECT %s.a, %s.b FROM (SELECT a, c FROM %s) %s JOIN (WITH act AS (SELECT a, b FROM %s) SELECT a, b FROM act) %s ON %s.a = %s.a" % (al, al2, a, al, b, al2, al, al2)
+        elif k == 16: s = ("SELECT %s.a, m.b, %s.c FROM (SELECT a FROM %s) %s JOIN (SELECT a, b FROM %s) m ON %s.a = m.a JOIN (WITH w1 AS (SELECT a, c FROM %s), w2 AS (SELECT a, c FROM w1) SELECT a, c FROM w2) %s ON m.a = %s.a"
+                           % (al, al2, a, al, b, al, c, al2, al2))
+        elif k == 17: s = "WITH w AS (SELECT %s.a, r2.b FROM (SELECT a FROM %s) %s JOIN (WITH v AS (SELECT a, b FROM %s) SELECT a, b FROM v) r2 ON %s.a = r2.a) SELECT w.a, w.b FROM w" % (al, a, al, b, al)
+        elif k == 18: s = "SELECT %s.a FROM (SELECT a, b FROM %s) %s WHERE %s.b IN (WITH v AS (SELECT b FROM %s) SELECT b FROM v)" % (al, a, al, al, b)
+        elif k == 19: s = "INSERT INTO %s SELECT %s.a, %s.b, %s.c FROM (SELECT a, b FROM %s) %s JOIN (WITH v AS (SELECT a, c FROM %s) SELECT a, c FROM v) %s ON %s.a = %s.a" % (c, al, al, al2, a, al, b, al2, al, al2)
+        elif k == 20: s = "SELECT %s.a, %s.a FROM (WITH v AS (SELECT a FROM %s) SELECT a FROM v) %s JOIN (WITH v AS (SELECT a FROM %s) SELECT a FROM v) %s ON %s.a = %s.a" % (al, al2, a, al, b, al2, al, al2)
         else:
             g = sqlgen.Gen(r, d, wild=False)
             s = g.query()
@@ -270,6 +280,7 @@ def history_pool(r):
         pool.append("SELECT z.a FROM %s z JOIN %s y ON z.a = y.a" % (n, BASES[1]))
         pool.append("INSERT INTO %s (a, b) SELECT a, b FROM %s" % (BASES[0], n))
         pool.append("SELECT a FROM s.%s" % n)
+        pool.append("SELECT %s.a, u.b FROM (SELECT a, c FROM %s) %s JOIN (WITH act AS (SELECT a, b FROM %s) SELECT a, b FROM act) u ON %s.a = u.a" % (n, BASES[0], n, BASES[1], n))
     return [("MYSQL", s_) for s_ in pool]
 
 
